@@ -23,7 +23,7 @@ TECHNIQUE = 'exhaustive microsecond sweep + exact-rational oracle on adversarial
 RULE = ('(a) all 10^6 microseconds x seconds values; (d) boundary-adjacent fractions; non-trivial = value whose sub-second part is non-zero; '
         'distinct = (part, seconds value, block) / (resolution, fraction class)')
 ASSUMPTIONS = ['datetime64 conversions are specified to truncate (within one unit), not to round']
-REQUIRED = ['derived_array_conversions', 'time_track_exact_points', 'raw_scalar_paths', 'roundtrip_scalar', 'roundtrip_array', 'writer_roundtrip_values', 'raw_pairs_bit_exact', 'conversions_checked', 'monotone_pairs',
+REQUIRED = ['raw_rewritten', 'derived_array_conversions', 'time_track_exact_points', 'raw_scalar_paths', 'roundtrip_scalar', 'roundtrip_array', 'writer_roundtrip_values', 'raw_pairs_bit_exact', 'conversions_checked', 'monotone_pairs',
             'scalar_vs_array', 'time_tracks', 'defragment_raw']
 EXHAUSTIVE = {'quick': False, 'thorough': False}
 SECONDS = {
@@ -167,6 +167,25 @@ def raw_rt(case, ctx):
                 ctx.count('raw_scalar_paths')
             except Exception as ex:
                 ctx.violation('raw-pairs/scalar-access-raises/%s' % util.exc_key(ex), {'mode': mode, 'endian': e})
+            # read -> write: the arrays the reader hands out (whole channel, slices, chunks) are written again as channel data
+            pieces = {'whole': [chx[:]], 'slices': [chx[:len(wl) // 2], chx[len(wl) // 2:]]}
+            if mode == 'lazy':
+                pieces['chunks'] = [chunk[:] for chunk in chx.data_chunks()]
+                pieces['file-chunks'] = [chunk['g']['ts'][:] for chunk in tf.data_chunks()]
+            for kind, arrs in pieces.items():
+                try:
+                    out = io.BytesIO()
+                    with TdmsWriter(out) as w:
+                        for a in arrs:
+                            if len(a):
+                                w.write_segment([ChannelObject('g', 'ts', a)])
+                    back = TdmsFile.read(io.BytesIO(out.getvalue()), raw_timestamps=True)['g']['ts'][:]
+                    ctx.count('raw_rewritten')
+                    if C.image(back) != ('ts', wl):
+                        ctx.violation('raw-pairs/rewrite-of-read-arrays/%s/%s' % (kind, 'big-endian' if e == '>' else 'little-endian'),
+                                      {'mode': mode, 'got': C.short(C.image(back)), 'want': wl[:4]})
+                except Exception as ex:
+                    ctx.violation('raw-pairs/rewrite-raises/%s/%s' % (kind, util.exc_key(ex)), {'mode': mode, 'endian': e})
             tf.close()
         # defragment keeps them bit exact
         out = io.BytesIO()
